@@ -7,7 +7,9 @@
 package verifsim
 
 import (
+	"cmp"
 	"fmt"
+	"slices"
 	"strconv"
 	"strings"
 	"sync"
@@ -16,8 +18,21 @@ import (
 	"time"
 )
 
-// SiteNames is filled by the generated sites_gen.go.
+// SiteNames ("kind@file:line") and SiteTexts ("Func: first source line of the statement") are filled by the
+// generated sites_gen.go.
 var SiteNames []string
+var SiteTexts []string
+
+// SiteDesc is what Trigger.Match and forced-mask patterns are matched against.
+func SiteDesc(id int) string {
+	if id >= 0 && id < len(SiteNames) {
+		if id < len(SiteTexts) {
+			return SiteNames[id] + " " + SiteTexts[id]
+		}
+		return SiteNames[id]
+	}
+	return SiteName(id)
+}
 
 // Site ids for scheduling points that do not come from the instrumenter.
 const (
@@ -166,9 +181,9 @@ func (s *Sim) SetMask(num, den int, force []string) {
 		bits >>= 1
 		left--
 	}
-	for i, n := range SiteNames {
+	for i := range SiteNames {
 		for _, f := range force {
-			if strings.Contains(n, f) {
+			if strings.Contains(SiteDesc(i), f) {
 				s.mask[i] = true
 			}
 		}
@@ -201,8 +216,11 @@ func (s *Sim) SetMaskByFile(fileNum, fileDen, num, den int, force []string) {
 		}
 	}
 	for i, n := range SiteNames {
+		if !strings.HasPrefix(n, "y@") {
+			continue
+		}
 		for _, f := range force {
-			if strings.Contains(n, f) {
+			if strings.Contains(SiteDesc(i), f) {
 				s.mask[i] = true
 			}
 		}
@@ -255,7 +273,7 @@ func (s *Sim) park(g *G, site int) {
 	g.site = site
 	g.parked = true
 	if len(s.Triggers) > 0 && site >= 0 {
-		name := SiteName(site)
+		name := SiteDesc(site)
 		for _, t := range s.Triggers {
 			if t.fired || t.pending || t.Kind != "site" {
 				continue
@@ -570,7 +588,10 @@ func (s *Sim) Drive(root *G) Outcome {
 			n.Note(s, g)
 		}
 		s.Steps++
-		s.mix(uint64(g.Idx)<<20 ^ uint64(int64(g.site)+16))
+		// the digest covers who ran, not where it was parked: a Go map iteration inside the system under test
+		// (e.g. fingerprint.collectKeys) permutes the order of yield sites inside one goroutine from process
+		// to process without changing anything observable
+		s.mix(uint64(g.Idx))
 		if s.KeepLog {
 			s.Log = append(s.Log, fmt.Sprintf("%d %s %s", s.Steps, g.ID, SiteName(g.site)))
 		}
@@ -759,6 +780,31 @@ func (s *Sim) BlockedSites(prefix string) []string {
 			st = "blocked"
 		}
 		out = append(out, fmt.Sprintf("%s %s@%s", g.ID, st, SiteName(g.site)))
+	}
+	return out
+}
+
+// MapOrder replaces Go's per-iteration random map order for `range` statements over maps in instrumented
+// code: the keys are sorted and then rotated / reversed by one draw from the run's choice stream, so the
+// order is a function of the seed (and shrinks to plain sorted order).
+func MapOrder[M ~map[K]V, K cmp.Ordered, V any](site int, m M) []K {
+	keys := make([]K, 0, len(m))
+	for k := range m {
+		keys = append(keys, k)
+	}
+	slices.Sort(keys)
+	s := S
+	if s == nil || len(keys) < 2 || s.free.Load() || s.cur == nil {
+		return keys
+	}
+	s.mu.Lock()
+	d := s.Ch.Draw(2 * len(keys))
+	s.Stats["map_order_draws"]++
+	s.mu.Unlock()
+	rot := d % len(keys)
+	out := append(append(make([]K, 0, len(keys)), keys[rot:]...), keys[:rot]...)
+	if d >= len(keys) {
+		slices.Reverse(out)
 	}
 	return out
 }
